@@ -11,7 +11,7 @@ LEMMAS = {
     'C05': [(['onshell'], [('covariant derivative', LM.L_covd), ('BSSNOK split', LM.L_bssn_split),
                            ('Riemann symmetries 3D', LM.L_riemann3), ('conformal', LM.L_conformal)], {})],
     'C06': [(['onshell'], [('constraints / Einstein equation', LM.L_constraints)], {})],
-    'C09': [(['fluid'], [('perfect fluid', LM.L_fluid)], {}),
+    'C09': [(['fluid', 'fluid_rho0zero', 'fluid_atrest'], [('perfect fluid', LM.L_fluid)], {}),
             (['freeT'], [('projections of a supplied T', LM.L_Tproj)], {})],
     'C10': [(['onshell'], [('Weyl tensor', LM.L_weyl), ('electric/magnetic parts', LM.L_EB),
                            ('quasi-Kinnersley triad', LM.L_tetrad_qk)], {}),
@@ -62,11 +62,12 @@ FUNCS = {
                'angmomdown3_n', 'conserved_D', 'conserved_E', 'conserved_Sdown4', 'conserved_Sdown3',
                'conserved_Sup4', 'conserved_Sup3', 'gammadown4', 'gammaup4', 'nup4', 'ndown4'],
         helpers=['trace4', 'trace3', 'levicivita_down3'],
-        scens=['fluid', 'freeT'], thorough_scens=['fluid', 'fluid_comp', 'freeT', 'onshell'],
+        scens=['fluid', 'fluid_rho0zero', 'fluid_atrest', 'freeT'],
+        thorough_scens=['fluid', 'fluid_comp', 'fluid_rho0zero', 'fluid_atrest', 'fluid_dust', 'freeT', 'onshell'],
         chain=['uup4', 'udown4', 'Tdown4', 'Tup4', 'Ttrace', 'rho_n', 'fluxup3_n', 'fluxdown3_n', 'Stressdown3_n',
                'Stressup3_n', 'Stresstrace_n', 'press_n', 'anisotropic_press_down3_n', 'conserved_D',
                'conserved_E', 'conserved_Sdown4', 'conserved_Sup4', 'hdown4', 'hup4', 'hmixed4'],
-        chain_scens=['fluid']),
+        chain_scens=['fluid', 'fluid_rho0zero']),
     'C10': dict(
         funcs=['st_Weyl_down4', 'eweyl_n_down3', 'bweyl_n_down3', 'eweyl_u_down4', 'bweyl_u_down4',
                'Weyl_Psi', 'Weyl_invariants'],
